@@ -41,6 +41,12 @@ CutPremise(r) ==
     /\ (r.tail.name # "" => HasVar(r.RT, r.tail.name))
     /\ SameShape(r.RT, r.T, 1, 1, HolesR(r), TailOfR(r))
 
+IsCtx(r) == "ctx" \in DOMAIN r
+LeafTextOnlyDiff(A, B) ==
+    /\ Len(A) = Len(B)
+    /\ \A i \in 1..Len(A) : A[i].ty = B[i].ty /\ A[i].kid = B[i].kid /\ A[i].ch = B[i].ch /\ A[i].mv = B[i].mv
+    /\ \E i \in 1..Len(A) : A[i].t # B[i].t
+
 Reasons(r) ==
     LET PT == r.PT  T == r.T IN
     UNION { LET s == Levels[i]  o == r.outs[s] IN
@@ -53,7 +59,12 @@ Reasons(r) ==
           : i \in 1..5 }
     \* the kept text of a cut pattern is copied from the code: when the parsed pattern has the structure of the code but
     \* a kept leaf reads differently, the pattern text was altered on its way to the matcher
-    \cup (IF r.mode = "cut" /\ ~r.nopat /\ ~CutPremisePT(r) /\ (\A k \in 1..Len(r.holes) : HasVar(r.PT, r.holes[k].name))
+    \* (a contextual pattern is cut from the text of an enclosing node; parsed on its own, that text may read differently
+    \* - a YAML sequence whose first item lost its indentation becomes one multi-line scalar - so there the parsed pattern
+    \* is compared with the recorder's own parse of the same context, r.RT, not with the code)
+    \cup (IF r.mode = "cut" /\ IsCtx(r) /\ ~r.nopat /\ r.RT # <<>> /\ LeafTextOnlyDiff(r.PT, r.RT)
+          THEN {<<"pattern-text-altered", "smart">>} ELSE {})
+    \cup (IF r.mode = "cut" /\ ~IsCtx(r) /\ ~r.nopat /\ ~CutPremisePT(r) /\ (\A k \in 1..Len(r.holes) : HasVar(r.PT, r.holes[k].name))
              /\ (r.tail.name # "" => HasVar(r.PT, r.tail.name)) /\ SameKinds(r.PT, r.T, 1, 1, Holes(r), TailOf(r))
           THEN {<<"pattern-text-altered", "smart">>} ELSE {})
     \cup (IF r.mode = "cut" /\ CutPremise(r)
